@@ -240,7 +240,7 @@ def random_script(rng, depth_max=3, big=False):
     return dict(tree=tree, pre=L.name_table(rng), scr_num=rng.choice([0, 0, 1, 7, 300]), kind="random-" + kind)
 
 
-EXCEPTION_FEATURES = ("F22", "F39", "F121")     # the decompiler raises: these get a script of their own (finding_scripts / exception_scripts)
+EXCEPTION_FEATURES = ()     # the decompiler raises: these get a script of their own (finding_scripts / exception_scripts)
 
 
 def limit_features(h, rng, g, tries=6):
